@@ -256,7 +256,7 @@ inline void check_after(const char* wlname) {
     if (*w.objs[o].stamp != 0) vsim_fail("c02.stamp-left", "object %d still carries stamp %ld", o, *w.objs[o].stamp);
   }
   if (w.cd) {
-    std::sort(w.commit_log.begin(), w.commit_log.end());
+    // commit_log is appended at the commit point, i.e. it already is in exact commit order
     std::vector<long> ref(w.nobj, 0);
     for (auto& ce : w.commit_log) {
       Item& it = w.items[ce.second];
